@@ -1,6 +1,6 @@
 (* C11 - Heikin-Ashi conversion follows its recurrence under every append schedule. *)
 From Coq Require Import ZArith List Bool.
-From Hexital Require Import Base.Prelude Base.Num Model.Manager Model.Candle Inst.ZInst Proofs.HAProofs Proofs.PipelineProofs.
+From Hexital Require Import Base.Prelude Base.Num Model.Manager Model.Candle Inst.ZInst Proofs.HAProofs Proofs.PipelineProofs Proofs.FillEngine Proofs.FillHA.
 Import ListNotations.
 
 (* Batch: converting a list of raw (untagged) candles yields the recurrence of the
@@ -63,3 +63,12 @@ Theorem C11_timeframe_pipeline_incremental :
   mgr_append O (tf_ha_cfg tf) D ys = tasks O (tf_ha_cfg tf) (xs ++ ys).
 Proof. intros O tf xs ys D Htf Hs Hp HD. eapply manager_incremental; eassumption. Qed.
 Print Assumptions C11_timeframe_pipeline_incremental.
+
+(* ... and with gap filling between the collapse and the conversion (collapse, fill, convert) *)
+Theorem C11_timeframe_fill_pipeline_incremental :
+  forall (O : NumOps) (tf : Z) (xs ys D : list (cd (payload O))),
+  (0 < tf)%Z -> sorted (payload O) (xs ++ ys) -> pristine O (xs ++ ys) ->
+  tasks O (tf_fill_ha_cfg tf) xs = Ok D ->
+  mgr_append O (tf_fill_ha_cfg tf) D ys = tasks O (tf_fill_ha_cfg tf) (xs ++ ys).
+Proof. intros O tf xs ys D Htf Hs Hp HD. eapply manager_fill_ha_incremental; eassumption. Qed.
+Print Assumptions C11_timeframe_fill_pipeline_incremental.
